@@ -13,7 +13,6 @@ import (
 	"github.com/go-git/go-git/v6/plumbing/protocol/capability"
 	"github.com/go-git/go-git/v6/plumbing/protocol/packp"
 	"github.com/go-git/go-git/v6/plumbing/protocol/packp/sideband"
-	"github.com/go-git/go-git/v6/plumbing/storer"
 	"github.com/go-git/go-git/v6/storage"
 	"github.com/go-git/go-git/v6/utils/ioutil"
 )
@@ -311,22 +310,14 @@ func setStatus(cmdStatus map[plumbing.ReferenceName]error, firstErr *error, ref 
 	}
 }
 
-func referenceExists(s storer.ReferenceStorer, n plumbing.ReferenceName) (bool, error) {
-	_, err := s.Reference(n)
-	if err == plumbing.ErrReferenceNotFound {
-		return false, nil
-	}
-
-	return err == nil, err
-}
-
 func updateReferences(st storage.Storer, req *packp.UpdateRequests, cmdStatus map[plumbing.ReferenceName]error, firstErr *error) {
 	for _, cmd := range req.Commands {
-		exists, err := referenceExists(st, cmd.Name)
-		if err != nil {
+		current, err := st.Reference(cmd.Name)
+		if err != nil && err != plumbing.ErrReferenceNotFound {
 			setStatus(cmdStatus, firstErr, cmd.Name, err)
 			continue
 		}
+		exists := err == nil
 
 		switch cmd.Action() {
 		case packp.Create:
@@ -335,11 +326,17 @@ func updateReferences(st storage.Storer, req *packp.UpdateRequests, cmdStatus ma
 				continue
 			}
 
+			if err := st.HasEncodedObject(cmd.New); err != nil {
+				setStatus(cmdStatus, firstErr, cmd.Name, err)
+				continue
+			}
+
 			ref := plumbing.NewHashReference(cmd.Name, cmd.New)
 			err := st.SetReference(ref)
 			setStatus(cmdStatus, firstErr, cmd.Name, err)
 		case packp.Delete:
-			if !exists {
+			// The reference must still hold the value the client saw.
+			if !exists || !current.Hash().Equal(cmd.Old) {
 				setStatus(cmdStatus, firstErr, cmd.Name, ErrUpdateReference)
 				continue
 			}
@@ -347,13 +344,19 @@ func updateReferences(st storage.Storer, req *packp.UpdateRequests, cmdStatus ma
 			err := st.RemoveReference(cmd.Name)
 			setStatus(cmdStatus, firstErr, cmd.Name, err)
 		case packp.Update:
-			if !exists {
+			if !exists || !current.Hash().Equal(cmd.Old) {
 				setStatus(cmdStatus, firstErr, cmd.Name, ErrUpdateReference)
 				continue
 			}
 
+			if err := st.HasEncodedObject(cmd.New); err != nil {
+				setStatus(cmdStatus, firstErr, cmd.Name, err)
+				continue
+			}
+
 			ref := plumbing.NewHashReference(cmd.Name, cmd.New)
-			err := st.SetReference(ref)
+			old := plumbing.NewHashReference(cmd.Name, cmd.Old)
+			err := st.CheckAndSetReference(ref, old)
 			setStatus(cmdStatus, firstErr, cmd.Name, err)
 		}
 	}
